@@ -226,22 +226,36 @@ Qed.
 (* ---------- C10: the propose-time gate, campaigning, new leaders ---------- *)
 
 (* A configuration-change entry survives the gate (with validation on) only if no earlier
-   change may still be unapplied, and joint/leave shapes fit; otherwise it is replaced by an
+   change may still be unapplied, the joint/leave shapes fit, and the current configuration
+   accepts the change (a dry run of the Changer: the F6 repair); otherwise it is replaced by an
    empty normal entry.  A surviving change moves pendingConfIndex to its own index. *)
 Theorem prop_gate_single r li e r' es' :
   is_cc_type (e_type e) = true -> r_disable_cc_validation r = false ->
   prop_gate r li 0 [e] = (r', es') ->
   (r_pending_conf_index r <= l_applied (r_log r) /\
    (0 <? nlen (c_outgoing (t_config (r_trk r)))) = e_leave e /\
+   cc_accepted r li e = true /\
    es' = [e] /\ r_pending_conf_index r' = li + 1)
   \/
   (es' = [mkEntry 0 0 EntryNormal true [] false false] /\ r' = r).
 Proof.
-  intros CC V H. cbn in H. rewrite CC, V in H. cbn in H.
-  destruct (l_applied (r_log r) <? r_pending_conf_index r) eqn:P; cbn in H.
-  - right. inversion H. auto.
-  - destruct (0 <? nlen (c_outgoing (t_config (r_trk r)))) eqn:J; destruct (e_leave e) eqn:L; cbn in H;
+  intros CC V H. cbn [prop_gate] in H. rewrite CC, V in H. cbn [negb andb] in H.
+  destruct (l_applied (r_log r) <? r_pending_conf_index r) eqn:P; cbn [orb] in H.
+  - right. rewrite andb_true_r in H. inversion H. auto.
+  - destruct (0 <? nlen (c_outgoing (t_config (r_trk r)))) eqn:J; destruct (e_leave e) eqn:L;
+      destruct (cc_accepted r li e) eqn:A; cbn [negb andb orb] in H;
       inversion H; subst; auto; left; apply N.ltb_ge in P; repeat split; auto; cbn; lia.
+Qed.
+
+(* a change that the current configuration does not accept (one that would remove every voter,
+   say) never enters the log of a validating leader *)
+Theorem prop_gate_refuses_unacceptable r li e r' es' :
+  is_cc_type (e_type e) = true -> r_disable_cc_validation r = false ->
+  cc_accepted r li e = false ->
+  prop_gate r li 0 [e] = (r', es') ->
+  es' = [mkEntry 0 0 EntryNormal true [] false false] /\ r' = r.
+Proof.
+  intros CC V A H. destruct (prop_gate_single r li e r' es' CC V H) as [(_ & _ & A' & _)|R]; [congruence|exact R].
 Qed.
 
 (* hup refuses to campaign while a committed configuration change is unapplied *)
